@@ -474,7 +474,8 @@ Proof.
   - (* CYield *)
     destruct k as [| |c].
     + apply Q, kq_refl.
-    + destruct inc; [apply Q, kq_refl|]. cbn [fst blocked]. apply (KInv_kq s); [exact K|].
+    + destruct inc; [apply Q, kq_refl|]. destruct (ckif_spins _ _ _); [|apply Q, kq_refl].
+      cbn [fst blocked]. apply (KInv_kq s); [exact K|].
       eapply kq_trans; [apply kq_bare_yield|apply kq_set_running].
     + pose proof (kq_scope_exit s c t inc) as H. destruct (scope_exit s c t inc) as [s1 x]. cbn [fst] in H.
       destruct x; now apply Q.
